@@ -70,6 +70,7 @@ def _response(status, ct_i, body, nfields, lf_only):
         lines.append(b'Content-Type: ' + ct.encode())
     if nfields >= 2:
         lines.append(b'X-A: b')
+        lines.append(b'HTTP/1.0 404 stray-status-line-without-colon')     # CGI artefact: the client skips it, so must the index
     if nfields >= 3:
         lines.append(b'Set-Cookie: big=' + b'v' * 5000)          # a header block larger than 4 KiB (the client accepts up to 32 KiB)
     lines.append(b'Content-Length: ' + str(len(body)).encode())
